@@ -494,7 +494,7 @@ func structural(p *Prog, comp []*ssa.Function, sites []*recSite, inSCC func(*ssa
 			if s.e.Kind == "extcallback" {
 				// callback invoked by an external function with arguments we do not see — unless it is one of the
 				// element-wise helpers of package slices, whose callback arguments are elements of the slice passed
-				if _, ok := extElemCallback(s.e.Site.Common()); !ok {
+				if _, ok := extElemSource(s.e.Site.Common()); !ok {
 					bad[s] = "closure is invoked by an external function"
 				}
 			}
